@@ -117,6 +117,19 @@ func installKnobs(s *sim.Sim, k plan.Knobs) {
 		return 0, false
 	}
 	if k.YieldDensity > 0 {
+		// between the writes of a gather-write that has no writev under it
+		var wrN uint64
+		vnet.SyscallYield = func() {
+			if yieldPaused.Load() {
+				return
+			}
+			n := atomic.AddUint64(&wrN, 1)
+			if !s.Coin("wry", n, 0.5) {
+				return
+			}
+			s.Fault("yield_at_write")
+			time.Sleep(s.Dur("wryd", n, 50, 20_000))
+		}
 		// the gnet loop notices posted work (AsyncWrite, Close) a little later
 		var wakeN uint64
 		vgnet.WakeDelay = func() time.Duration {
@@ -222,6 +235,7 @@ func uninstallKnobs() {
 	vsync.HookU = nil
 	vsync.Pick = nil
 	vgnet.WakeDelay = nil
+	vnet.SyscallYield = nil
 	vbytes.Drain()
 	vbytes.Report = nil
 	vsync.PoolPoison = false
